@@ -87,6 +87,9 @@ type Fed struct {
 	TUM    merger.TypeURLMap
 	sp     *swapPlanner
 	docs   map[string]*ast.QueryDocument
+	// Guard, if set, is asked before every downstream call with the planning context of the
+	// queryer that makes it (Engine B: calls on behalf of a closed client connection fail)
+	Guard func(pc *planner.PlanningContext, url string) error
 }
 
 // NewFed merges the world's schemas with the real merger and builds the real gateway
@@ -111,7 +114,6 @@ func NewFed(w *World, cfg Config) (*Fed, error) {
 		inner = m
 	}
 	cm := &capMerger{inner: inner}
-	client := &http.Client{Transport: f.Fakes}
 	m := cfg.BatchM
 	if m == 0 {
 		m = 3000
@@ -123,7 +125,9 @@ func NewFed(w *World, cfg Config) (*Fed, error) {
 		pebbles.WithMerger(cm),
 		pebbles.WithPlanner(f.sp),
 		pebbles.WithQueryerFactory(func(pc *planner.PlanningContext, u string) queryer.Queryer {
-			return queryer.NewMultiOpQueryer(u, m).WithHTTPClient(client)
+			// like the default factory, a queryer belongs to the request it was made for
+			c := &http.Client{Transport: &boundTransport{f: f, pc: pc, url: u}}
+			return queryer.NewMultiOpQueryer(u, m).WithHTTPClient(c)
 		}),
 	}
 	if cfg.Hint {
@@ -134,9 +138,41 @@ func NewFed(w *World, cfg Config) (*Fed, error) {
 		return nil, err
 	}
 	f.GW = gw
-	f.Merged = cm.res.Schema
 	f.TUM = cm.res.TypeURLMap
+	// the reference side works on a merged schema of its own (merged a second time from freshly
+	// parsed service schemas): whatever the gateway does to its schema object at run time must
+	// not reach the oracle
+	var inputs []*merger.MergeInput
+	for _, s := range w.Services {
+		sc, err := gqlparser.LoadSchema(&ast.Source{Name: s.URL, Input: s.SDL})
+		if err != nil {
+			return nil, err
+		}
+		inputs = append(inputs, &merger.MergeInput{Schema: sc, URL: s.URL})
+	}
+	ref, err := inner.Merge(inputs)
+	if err != nil {
+		return nil, err
+	}
+	f.Merged = ref.Schema
 	return f, nil
+}
+
+// boundTransport ties a queryer to the planning context it was created for: Fed.Guard (if set)
+// may refuse a call made through a queryer whose client request is gone.
+type boundTransport struct {
+	f   *Fed
+	pc  *planner.PlanningContext
+	url string
+}
+
+func (b *boundTransport) RoundTrip(r *http.Request) (*http.Response, error) {
+	if b.f.Guard != nil {
+		if err := b.f.Guard(b.pc, b.url); err != nil {
+			return nil, err
+		}
+	}
+	return b.f.Fakes.RoundTrip(r)
 }
 
 // Obs is everything observed for one case.
